@@ -77,7 +77,8 @@ struct EEA {
 
 impl EEA {
     fn new(ck: &[u8], count: u32, bearer: u32, direction: u32) -> (e: EEA)
-        requires ck@.len() >= 16, bearer < 32, direction < 2
+        requires bearer < 32, direction < 2,
+            ck@.len() >= 16, //@carveout D43
         ensures cells_ok(e.zuc.s@), abs(e.zuc) == z_init(ck@.subrange(0, 16), e_iv(count, bearer, direction))
     {
         proof {
@@ -103,7 +104,8 @@ impl EEA {
     }
 
     fn encrypt(&mut self, msg: &[u32], ilen: u32) -> (rs: Vec<u32>)
-        requires cells_ok(old(self).zuc.s@), msg@.len() >= words(ilen as int)
+        requires cells_ok(old(self).zuc.s@),
+            msg@.len() >= words(ilen as int), //@carveout D44
         ensures rs@ =~= e_out(abs(old(self).zuc), msg@, ilen as int), cells_ok(final(self).zuc.s@),
             abs(final(self).zuc) == z_after(abs(old(self).zuc), words(ilen as int))
     {
@@ -140,7 +142,8 @@ struct EIA {
 
 impl EIA {
     fn new(ik: &[u8], count: u32, bearer: u32, direction: u32) -> (e: EIA)
-        requires ik@.len() >= 16, bearer < 32, direction < 2
+        requires bearer < 32, direction < 2,
+            ik@.len() >= 16, //@carveout D43
         ensures cells_ok(e.zuc.s@), abs(e.zuc) == z_init(ik@.subrange(0, 16), i_iv(count, bearer, direction))
     {
         proof {
@@ -168,7 +171,8 @@ impl EIA {
         }
     }
     fn gen_mac(&mut self, m: &[u32], ilen: u32) -> (mac: u32)
-        requires cells_ok(old(self).zuc.s@), m@.len() >= words(ilen as int)
+        requires cells_ok(old(self).zuc.s@),
+            m@.len() >= words(ilen as int), //@carveout D44
         ensures mac == i_mac(abs(old(self).zuc), m@, ilen as int)
     {
         let ghost st0 = abs(self.zuc);
